@@ -56,6 +56,19 @@ type gen struct {
 	where                []string // enclosing constructs, innermost last (tags spy ids with their position)
 	mask                 uint64   // swarm: segment kinds switched off for this program (bit = case number)
 	maskSet              bool
+	dir                  string // directory part of this program's template names ("" = flat names)
+}
+
+// ref gives the spelling under which a template of the program is referenced from another one: with
+// directories in play, often relative to the referring template (./x, ../x).
+func (g *gen) ref(full string) string {
+	if g.dir == "" || !g.r.P(60) {
+		return full
+	}
+	if strings.HasPrefix(full, g.dir) {
+		return "./" + full[len(g.dir):]
+	}
+	return strings.Repeat("../", strings.Count(g.dir, "/")) + full
 }
 
 var words = []string{"alpha", "beta", "gamma", "delta", "x", "yz", "Hello World", "a,b,c", "été", "日本", "<b>&\"'</b>", "  pad  ", ""}
@@ -406,7 +419,7 @@ func (g *gen) seg(d int) string {
 		return g.open("set "+v+" = "+g.at("set-value", func() string { return g.wrapSpy(g.scalar(2)) })) + g.print(v)
 	case 11:
 		if g.f.Include && len(g.names) > 0 {
-			name := pick(g.r, g.names)
+			name := g.ref(pick(g.r, g.names))
 			s := "include '" + name + "'"
 			if g.r.P(20) && len(name) > 2 {
 				// a computed template name
@@ -480,7 +493,7 @@ func (g *gen) seg(d int) string {
 		return g.print(g.scalar(1))
 	case 20:
 		if g.f.Macros && len(g.names) > 0 && g.r.P(60) {
-			lib := "lib"
+			lib := g.ref("lib")
 			if g.r.P(50) {
 				return g.open("import '"+lib+"' as L") + g.print("L.box("+g.scalar(1)+")")
 			}
@@ -586,6 +599,7 @@ func genProgram(r *R, f Feat) *Program {
 	dir := ""
 	if f.RelPaths {
 		dir = pick(r, []string{"a/", "b/", "a/sub/"})
+		g.dir = dir
 	}
 	mk := func(name string, nseg, d int) Tmpl {
 		t := Tmpl{Name: name}
@@ -626,7 +640,7 @@ func genProgram(r *R, f Feat) *Program {
 			deep = true
 			// a middle level: main extends mid extends base
 			mid := Tmpl{Name: dir + "mid"}
-			mid.Segs = append(mid.Segs, g.open("extends '"+base.Name+"'"))
+			mid.Segs = append(mid.Segs, g.open("extends '"+g.ref(base.Name)+"'"))
 			for i := 0; i < nb; i++ {
 				if true { // every block: a level that skips a block makes parent() in the child fail in this engine
 					b := g.at("mid-block", func() string { return g.body(1) })
@@ -636,7 +650,7 @@ func genProgram(r *R, f Feat) *Program {
 			p.Templates = append(p.Templates, mid)
 			ref = mid.Name
 		}
-		main.Segs = append(main.Segs, g.open("extends '"+ref+"'"))
+		main.Segs = append(main.Segs, g.open("extends '"+g.ref(ref)+"'"))
 		for i := 0; i < nb; i++ {
 			if r.P(70) {
 				b := g.at("child-block", func() string { return g.body(2) })
